@@ -371,4 +371,41 @@ pub mod facade {
       Self(self.0.clone())
     }
   }
+
+  // ------------------------------------------------------------------
+  // RouterMap (ROUTER addressing state) and the envelope helpers
+  // ------------------------------------------------------------------
+  pub struct RouterMapX(crate::socket::patterns::router::RouterMap);
+  impl RouterMapX {
+    pub fn new() -> Self {
+      Self(crate::socket::patterns::router::RouterMap::new())
+    }
+    pub async fn add_peer(&self, identity: &[u8], pipe: usize, uri: &str) {
+      self.0.add_peer(crate::Blob::from(identity.to_vec()), pipe, uri.to_string()).await
+    }
+    pub async fn update_peer_identity(&self, pipe: usize, identity: &[u8], uri: &str, peer_type: Option<&str>) {
+      self.0.update_peer_identity(pipe, crate::Blob::from(identity.to_vec()), uri, peer_type).await
+    }
+    pub async fn remove_peer_by_read_pipe(&self, pipe: usize) {
+      self.0.remove_peer_by_read_pipe(pipe).await
+    }
+    pub async fn identity_of_pipe(&self, pipe: usize) -> Option<Vec<u8>> {
+      self.0.get_identity_by_read_pipe(pipe).await.map(|b| b.as_ref().to_vec())
+    }
+    pub async fn uri_of_identity(&self, identity: &[u8]) -> Option<String> {
+      self.0.get_peer_info_for_identity(&crate::Blob::from(identity.to_vec())).await.map(|i| i.uri)
+    }
+  }
+  pub fn router_auto_encode(f: &mut FrameBatch) {
+    crate::socket::patterns::framing::router_auto_encode(f)
+  }
+  pub fn router_auto_decode(f: &mut FrameBatch) {
+    crate::socket::patterns::framing::router_auto_decode(f)
+  }
+  pub fn dealer_auto_encode(f: &mut FrameBatch) {
+    crate::socket::patterns::framing::dealer_auto_encode(f)
+  }
+  pub fn dealer_auto_decode(f: &mut FrameBatch) {
+    crate::socket::patterns::framing::dealer_auto_decode(f)
+  }
 }
